@@ -484,14 +484,36 @@ def run_thread_history(h: dict, seed: int) -> dict:
                         time.sleep(0.05)
                 for t in list(serve_threads):
                     t.join(20)
+                # a closed server must refuse to serve: run the last serve_forever in its own thread so that a server
+                # that does come up again is a recorded event, not a hung harness
                 cid = ev("call", op="serve", task=-1)
-                try:
-                    server.serve_forever()
-                    ev("return", call=cid, result="returned")
-                except ServerClosedError:
-                    ev("return", call=cid, result="ServerClosedError")
-                except BaseException as exc:  # noqa: BLE001
-                    ev("return", call=cid, result=f"raised:{type(exc).__name__}")
+                came_up = threading.Event()
+                finished = threading.Event()
+
+                class Up2:
+                    def set(self_inner):
+                        ev("up", call=cid)
+                        came_up.set()
+
+                def last():
+                    try:
+                        server.serve_forever(is_up_event=Up2())
+                        ev("return", call=cid, result="returned")
+                    except ServerClosedError:
+                        ev("return", call=cid, result="ServerClosedError")
+                    except BaseException as exc:  # noqa: BLE001
+                        ev("return", call=cid, result=f"raised:{type(exc).__name__}")
+                    finished.set()
+
+                lt = threading.Thread(target=last, daemon=True)
+                lt.start()
+                for _ in range(400):
+                    if finished.is_set() or came_up.is_set():
+                        break
+                    time.sleep(0.05)
+                if came_up.is_set() and not finished.is_set():
+                    server.shutdown()
+                    lt.join(20)
 
             et = threading.Thread(target=epilogue, daemon=True)
             et.start()
